@@ -11,11 +11,11 @@ THEOREMS = {
     "C15": ["C15_history", "C15_nth_and_count_stable", "C15_iteration", "C15_partial_iteration", "C15_positions"],
     "C05": ["C05_shape_box", "C05_range_is_box", "C05_header_box", "C05_header_absent"],
     "C06": ["C06_typed_vs_generic", "C06_never_wrong_type", "C06_type_identity", "C06_dispatch", "C06_try_from",
-            "C06_from_tryfrom", "C06_bulk"],
+            "C06_from_tryfrom", "C06_bulk", "C06_typed_iteration", "C06_typed_is_generic_converted"],
     "C07": ["C07_open", "C07_index_parse", "C07_no_panic", "C07_record", "C07_bounded_index", "C07_bounded_noindex"],
     "C13": ["C13_truncation", "C13_truncated_header", "C13_inside_is_prefix", "C13_record_cut", "C13_fault", "C13_fault_open",
             "C13_short_reads"],
-    "C12": ["C12_fault_surfaces", "C12_finalize_any", "C12_retry", "C12_failed_finalize_harmless", "C12_reachable", "C12_drop", "C12_chunking"],
+    "C12": ["C12_fault_surfaces", "C12_finalize_any", "C12_retry", "C12_failed_finalize_harmless", "C12_calls_never_panic", "C12_history_never_panics", "C12_reachable", "C12_drop", "C12_chunking"],
     "C11": ["C11_crash_states", "C11_read_any_header", "C11_crash_prefix", "C11_torn_length_monotone",
             "C11_torn_header", "C11_committed_states", "C11_committed_readable",
             "C11_read_index_truncated", "C11_index_from_crash_state", "C11_crash_index_ordered", "C11_crash_states_shx",
@@ -50,7 +50,7 @@ AXIOMS = {"C16_test_is_exact_sign": FLOCQ, "C16_orientation_exact": FLOCQ, "C16_
           "C13_fault_open": FLOCQ, "C13_inside_is_prefix": FLOCQ,
           "C07_open": FLOCQ, "C07_index_parse": FLOCQ, "C07_no_panic": FLOCQ, "C07_record": FLOCQ, "C07_bounded_index": FLOCQ,
           "C07_bounded_noindex": FLOCQ,
-          "C06_typed_vs_generic": FLOCQ, "C06_never_wrong_type": FLOCQ, "C06_dispatch": FLOCQ,
+          "C06_typed_vs_generic": FLOCQ, "C06_typed_iteration": FLOCQ, "C06_typed_is_generic_converted": FLOCQ, "C06_never_wrong_type": FLOCQ, "C06_dispatch": FLOCQ,
           "C05_shape_box": FLOCQ,
           "C01_roundtrip_index": FLOCQ, "C04_shx_layout": set(), "C04_entries_address_records": FLOCQ, "C04_reader": FLOCQ,
           "C04_hint_and_count": FLOCQ, "C14_index_governs": FLOCQ, "C14_iteration_is_index_order": FLOCQ, "C14_nth_agrees": FLOCQ,
